@@ -51,6 +51,36 @@ class BuiltinMixin:
         vs = self.as_seq(args[0], st, "lsum()")
         yield V(INT, self.from_mathint(self.lsum_with_lemmas(vs, st))), st
 
+    def bi_prefix_pad(self, args, kwargs, st):
+        """prefix_pad(result, text): result == text[:k] + " " * j for some 0 <= k <= len(text), j >= 0.
+        The witnesses are found by matching the rope structure of `result` (the side conditions go to
+        the solver), so a `True` answer is a checked witness, never a guess."""
+        res = self.as_seq(args[0], st, "prefix_pad")
+        txt = self.as_seq(args[1], st, "prefix_pad")
+        if len(txt.pieces) != 1 or txt.pieces[0].kind != "view":
+            raise Unsupported("prefix_pad: text is not a single view")
+        t = txt.pieces[0]
+        pieces = list(res.pieces)
+        k = z3.IntVal(0)
+        conds = []
+        pos = t.lo
+        while pieces and pieces[0].kind == "view" and pieces[0].a.eq(t.a):
+            p = pieces.pop(0)
+            conds.append(z3.Or(p.lo == pos, p.hi <= p.lo))  # contiguous continuation (or an empty piece)
+            conds.append(p.hi >= p.lo)
+            pos = z3.If(p.hi > p.lo, p.hi, pos)
+        conds.append(pos <= t.hi)
+        conds.append(pos >= t.lo)
+        for p in pieces:
+            if p.kind == "rep":
+                conds.append(z3.Or(p.a == 32, p.hi <= 0))
+            elif p.kind == "lit":
+                conds.extend([it == 32 for it in p.items])
+            else:
+                # a view that is not a prefix continuation: must be empty
+                conds.append(p.hi <= p.lo)
+        yield V(BOOL, z3.And(*conds)), st
+
     def bi_seq_eq(self, args, kwargs, st):
         yield V(BOOL, self.val_eq(args[0], args[1], st)), st
 
@@ -355,7 +385,10 @@ class BuiltinMixin:
         if isinstance(v0, VSeq) and not v0.is_str:
             return self.box_list(VSeq(v0.elem, list(v0.pieces)), st)
         it = self.make_iter(v, st)
+        from .exec_call import fresh_mark, skolemize
+
         k = z3.Int(fresh_name("li"))
+        mark = fresh_mark()
         sub = st.copy()
         sub.assume(z3.And(0 <= k, k < it.length))
         val = it.get(k, sub)
@@ -363,6 +396,7 @@ class BuiltinMixin:
         term = self.to_term(val, es, sub)
         arr = z3.Const(fresh_name("lst"), z3.ArraySort(z3.IntSort(), self.U.z3sort(es)))
         facts = sub.pc[len(st.pc) + 1:]
+        term, *facts = skolemize(k, mark, [term] + list(facts))
         st.assume(z3.ForAll([k], z3.Implies(z3.And(0 <= k, k < it.length), z3.And(arr[k] == term, *facts)), patterns=[arr[k]]))
         return self.box_list(seqs.view(arr, z3.IntVal(0), z3.simplify(it.length), es), st)
 
